@@ -1,6 +1,6 @@
 import UtilModel.Core.LTSHash
 import UtilModel.Once.Monitors
-import UtilModel.Memo.Model
+import UtilModel.Memo.Monitors
 open UtilModel
 #print axioms UtilModel.acceptsH_sound
 #print axioms UtilModel.monitor_of_simulation
